@@ -296,8 +296,9 @@ def unit_rows(kind, n, k):
     return 2
 
 
-def build(spec, shape=None, units=None):
-    """library object of the spec (optionally of a sub-list of its units)"""
+def build(spec, shape=None, units=None, flavour=None):
+    """library object of the spec (optionally of a sub-list of its units); `flavour` forces
+    the memory layout of the arrays handed over (default: chosen by the data)"""
     kind, n, k, variant = spec["kind"], spec["n"], spec["k"], spec.get("variant", 0)
     shape = tuple(spec["shape"] if shape is None else shape)
     units = spec["units"] if units is None else units
@@ -306,7 +307,7 @@ def build(spec, shape=None, units=None):
 
     def give(x):
         # (in one of several memory layouts, chosen by the data)
-        x = gen.flavoured(x)
+        x = gen.flavoured(x, flavour)
         handed.append(x)
         return x
     obj = _build_kind(kind, variant, arr, lambda: give(arr.copy()),
